@@ -1,0 +1,12 @@
+//go:build verif
+
+package packetforward
+
+import (
+	transfertypes "github.com/cosmos/ibc-go/v11/modules/apps/transfer/types"
+)
+
+// VerifGetDenomForThisChain exposes getDenomForThisChain to the verification harness (add-only, build tag verif).
+func VerifGetDenomForThisChain(port, channel, counterpartyPort, counterpartyChannel string, denom transfertypes.Denom) string {
+	return getDenomForThisChain(port, channel, counterpartyPort, counterpartyChannel, denom)
+}
